@@ -45,6 +45,7 @@ PROPS = {
         "tests": [{"name": "TestC20",
                    "quick": {"checks": 100000, "shards": 2},
                    "thorough": {"checks": 400000, "shards": 16}}],
+        "fuzz": [{"name": "FuzzIPCalc", "seconds": 60}],
         "rule": "rapid draws p in 0..128 (weighted to 0,1,63,64,65,127,128), a base of two 64-bit halves from {0, ~0, 1, 2^k, 2^k-1, ~0<<k, random} masked to /p, x = base + delta (0, 1, block-1, block, m*block+-1, up to the all-ones address) and n from {0..2, 2^p+-1, blocks-to-end+-1, half patterns}; Offset (both argument orders) and AddPrefixes are compared with math/big, plus the inverse law. Non-trivial: borrow or carry across the 64-bit halves, an expected overflow, or p in 63..65. Distinct: FNV-64 of the case JSON.",
         "assumptions": ["base is aligned to /p and x >= base, as the property's quantifier states; both are 16-byte addresses"],
     },
@@ -118,5 +119,56 @@ PROPS = {
         "assumptions": ["plugin names are lower-case identifiers (viper folds key case); argument tokens are strings or canonical decimal integers for YAML (no floats, booleans, dates, ~)",
                         "not asserted: port ranges (99999, -5 are accepted by the code), empty listen lists/values, null protocol sections, unbracketed IPv6 literals",
                         "multicast expansion is compared with the interfaces this sandbox has at run time"],
+    },
+    "C01": {
+        "engine": "srv",
+        "tests": [{"name": "TestC01", "quick": {"checks": 1500, "shards": 3}, "thorough": {"checks": 8000, "shards": 16}}],
+        "fuzz": [{"name": "FuzzHandle4", "seconds": 90}, {"name": "FuzzHandle6", "seconds": 90}],
+        "rule": "rapid draws a protocol, a chain of validly configured built-in plugins (any subset in example-configuration order, or any permutation prefix; several argument variants; stateful range/prefix/file included; fresh instances per case), a bound or unbound listener, and a history of 1..12 [thorough ..24] datagrams from small pools of clients: structured DHCPv4 packets (any opcode, hlen 0..255, message type any/absent/duplicated/bad length, options 50/54/55/61/82/12/116/generic, pad, missing END, bad cookie, shuffled options) or DHCPv6 messages (any type, 0..3 IA_PD with hints of wire length 0 / length-only / pool blocks / out of pool / length > 128, IA_NA, ORO, server id own/other, rapid commit, relay depth 0..4 with interface-id/remote-id/client link-layer address, missing relay message, outer Relay-Reply), 30% byte-mutated (truncate, bit flip, overwrite, splice with the previous datagram, append, length bytes) and 10% retransmitted. Each datagram is fed through the capture listener under recover and a watchdog; oracle: no panic, returns within 20 s (a goroutine parked on a lock or channel is a wedge), at most one reply, every reply parses, and a well-formed canary request after the history still reaches the plugin chain. Non-trivial: at least one datagram of the history reached the plugin chain. Distinct: FNV-64 of the case JSON. Thorough adds coverage-guided native fuzzing of whole histories (FuzzHandle4/6).",
+        "assumptions": ["an unbound listener always receives interface information (listen4/listen6 enable it on unbound sockets), so (unbound, no control message) is never generated",
+                        "replies are observed at the capture hook: the WriteTo call of the listener and the serialised Ethernet frame of sendEthernet; the sockets themselves are not exercised",
+                        "the layer-2 path needs an interface with a 6-byte hardware address; it is looked up at run time"],
+    },
+    "C11": {
+        "engine": "srv",
+        "tests": [{"name": "TestC11", "quick": {"checks": 20000, "shards": 2, "timeout": 1200}, "thorough": {"checks": 100000, "shards": 12}, "count_free": True, "env": {"VERIF_ENUM": 1}}],
+        "fuzz": [{"name": "FuzzReply4", "seconds": 60}],
+        "rule": "every run enumerates all 256 opcodes x 257 message-type values (incl. absent) on a fixed relayed body, then rapid draws structured DHCPv4 datagrams (see C01; 20% byte-mutated) under a chain that is empty, synthetic (pass / NAK-maker / dropper) or a random stateless built-in chain, bound or unbound. Oracle: the harness classifies the datagram (library parse = definition of unparseable; opcode; message type); anything but a parseable BOOTREQUEST of type DISCOVER/REQUEST must produce no output; an output (UDP payload, or the DHCP payload decoded from the layer-2 frame) must be a BOOTREPLY with the request's xid, htype, chaddr, flags, giaddr, byte-equal options 82 and 61, OFFER for DISCOVER and ACK/NAK for REQUEST; with a chain that cannot drop exactly one output exists (UDP paths). Non-trivial: parseable datagram. Distinct: FNV-64 of the case JSON.",
+        "assumptions": ["an unbound listener always receives interface information (listen4/listen6 enable it on unbound sockets), so (unbound, no control message) is never generated",
+                        "replies are observed at the capture hook: the WriteTo call of the listener and the serialised Ethernet frame of sendEthernet; the sockets themselves are not exercised",
+                        "the layer-2 path needs an interface with a 6-byte hardware address; it is looked up at run time"],
+    },
+    "C12": {
+        "engine": "srv",
+        "tests": [{"name": "TestC12", "quick": {"checks": 20000, "shards": 2}, "thorough": {"checks": 100000, "shards": 12}, "count_free": True}],
+        "fuzz": [{"name": "FuzzReply6", "seconds": 60}],
+        "rule": "every run enumerates message type 0..255 x client-id present/absent x rapid-commit present/absent x relay depth 0..2, then rapid draws structured DHCPv6 datagrams (see C01; 17% byte-mutated) x source address (link-local, global, loopback, ULA) x source port x bound/unbound listener x receiving interface index, with an empty chain. Oracle: output exists iff the innermost message can be extracted, has a supported type and a client id and the outermost layer (if any) is a Relay-Forward; the answer is ADVERTISE for SOLICIT, REPLY carrying Rapid Commit for SOLICIT with it, REPLY otherwise, same transaction id, byte-equal client id; relayed: exactly n Relay-Reply layers (read with the harness's own walker) mirroring link-address, peer-address and Interface-ID per layer; destination = source address and port; link-local source => control message pinned to the bound, else the receiving interface. Non-trivial: a reply was produced or the datagram was relayed. Distinct: FNV-64 of the case JSON.",
+        "assumptions": ["an unbound listener always receives interface information (listen4/listen6 enable it on unbound sockets), so (unbound, no control message) is never generated",
+                        "replies are observed at the capture hook: the WriteTo call of the listener and the serialised Ethernet frame of sendEthernet; the sockets themselves are not exercised",
+                        "the layer-2 path needs an interface with a 6-byte hardware address; it is looked up at run time"] + ["inner relay layers are generated as Relay-Forward; only the outermost may be a Relay-Reply", "absence of pinning for global sources is not asserted"],
+    },
+    "C13": {
+        "engine": "srv",
+        "tests": [
+            {"name": "TestC13", "quick": {"checks": 6000, "shards": 2}, "thorough": {"checks": 50000, "shards": 8}},
+            {"name": "TestC13Builtin", "quick": {"checks": 1000, "shards": 2}, "thorough": {"checks": 6000, "shards": 8}},
+        ],
+        "rule": "TestC13: synthetic plugins registered once through plugins.RegisterPlugin (three dual, two DHCPv4-only, two DHCPv6-only) whose behaviour is chosen by their argument (pass, modify, replace the response object, stop with response, stop with nil, setup error, nil handler); rapid draws configurations of 0..5 entries per protocol in any mix plus unknown names; plugins.LoadPlugins and one request per protocol through the capture listener are compared with an interpreter of the statement (error iff unknown name / failing setup for a configured protocol; handlers = listed plugins supporting the protocol, in order; invocation log in order, each at most once, each seeing the markers its predecessor returned and the original transaction id; stops after the first stop; the sent reply carries the markers of the response returned last; nil => nothing sent). TestC13Builtin: C01's chains and histories with every built-in handler wrapped: a nil response without stop is a violation. Non-trivial: chain of >= 2 handlers with a stop before the end or a replace (TestC13); a datagram reached the chain (TestC13Builtin). Distinct: FNV-64 of the case JSON.",
+        "assumptions": ["configurations are built as config.Config values (C18 covers the path from text to that structure)"],
+    },
+    "C15": {
+        "engine": "srv",
+        "tests": [{"name": "TestC15", "quick": {"checks": 10000, "shards": 1}, "thorough": {"checks": 100000, "shards": 8}, "count_free": True}],
+        "rule": "every run enumerates the whole table giaddr x ciaddr in {0, 192.0.2.7, 10.10.10.200, 169.254.7.9, 255.255.255.255} x broadcast flag x DISCOVER/REQUEST x synthetic plugin action {offer an address, leave yiaddr unset, turn the reply into a NAK} x listener {bound to the interface with a 6-byte hardware address, unbound with the request arriving on it, unbound with a non-existent receiving index} (900 rows), then rapid draws the same dimensions with random addresses, yiaddr and chaddr. Oracle: the statement's cascade written independently (giaddr:67, NAK broadcast, ciaddr:68, flag broadcast, else one layer-2 frame with Ethernet dst = chaddr, IPv4 dst = yiaddr, UDP 67->68, DHCP payload = the reply, on the right interface); broadcast/link-local/L2 pinned to the bound or receiving interface, routable destinations not pinned. Every row is non-trivial; distinct: FNV-64 of the case JSON.",
+        "assumptions": ["an unbound listener always receives interface information (listen4/listen6 enable it on unbound sockets), so (unbound, no control message) is never generated",
+                        "replies are observed at the capture hook: the WriteTo call of the listener and the serialised Ethernet frame of sendEthernet; the sockets themselves are not exercised",
+                        "the layer-2 path needs an interface with a 6-byte hardware address; it is looked up at run time"] + ["layer-2 rows use hlen 6; for other lengths the Ethernet serialiser refuses and nothing is sent, which is recorded but not asserted"],
+    },
+    "C16": {
+        "engine": "srv",
+        "tests": [{"name": "TestC16", "race": True, "quick": {"checks": 24, "shards": 2, "timeout": 1500}, "thorough": {"checks": 60, "shards": 8, "timeout": 3000}, "env": {"VERIF_MAX_WATCHERS": 24}, "shrinktime": "5s"}],
+        "rule": "rapid draws a scenario: DHCPv4 chain (server_id, file, range, dns, router, netmask, lease_time), DHCPv6 chain (server_id, file, prefix, dns) or both at once; 1..3 static and 2..8 dynamic clients, a range/pool up to two smaller than the dynamic client set, 8..32 [thorough ..64] goroutines each sending 3..12 datagrams (same-client storms), optionally the file plugin with autorefresh while a writer goroutine rewrites the lease files in place; every datagram goes through Capture.Feed (buffer from the pool, parse, recycle, chain) on a -race build. Oracles: (1) the Go race detector (any report is a violation); (2) cross-talk: the reply returned for request xid X must carry X and X's chaddr/client id; (3) invariants every serial order satisfies: one address per dynamic client, one client per address, in range, refusal implies the range is full at the end, static clients get the old or the new mapping, one prefix per client for hint-less requests, no prefix delegated to two clients. Non-trivial: at least two datagrams were in flight at once (measured). Distinct: FNV-64 of the case JSON.",
+        "assumptions": ["interleavings are sampled by the Go scheduler (GOMAXPROCS = cores, yields injected in front of the chain); the race detector flags unsynchronised access pairs even when the bad interleaving did not occur",
+                        "requests are relayed (giaddr set) so replies take the UDP path", "at most 24 autorefresh watchers per process (inotify instances are never released by the plugin)"],
     },
 }
